@@ -706,8 +706,12 @@ def loss_set():
          ensures=[("L4: a ball that left by a mechanical eject while the device was idle is accounted for as ONE eject "
                    "that has already left towards the first eject target (which expects one more ball)",
                    "mechanical_eject_queued() and self.config['eject_targets'][0].available_balls == "
-                   "old(self.config['eject_targets'][0].available_balls) + 1")],
-         modifies=["self.config['eject_targets'][0].available_balls"], raises={}, skip_frame=True)
+                   "old(self.config['eject_targets'][0].available_balls) + 1"),
+                  ("L4b: ... and the booking MOVES: the ball is no longer available at this device (as in "
+                   "setup_eject_chain) - otherwise the counts of available balls sum to one more than the balls known and "
+                   "the next request is routed to the empty device",
+                   "self.available_balls == old(self.available_balls) - 1")],
+         modifies=["self.config['eject_targets'][0].available_balls", "self.available_balls"], raises={}, skip_frame=True)
     return C
 
 
